@@ -132,7 +132,10 @@ class Decorator:
             else:
                 N[i - 1]['tgt'] = [r.choice(self.names)]
                 N[i - 1]['e'] = b.I(self.reads(b, scope))
-            N[i - 1]['body'] = self.block(b, fn, scope)
+            body = self.block(b, fn, scope)
+            if r.random() < 0.2:     # a loop directive must be the first statement of the loop body
+                body = [b.node(kind='directive', fn=fn, k=100 + b.newk())] + body
+            N[i - 1]['body'] = body
             if self.peek() == 'else':
                 self.take()
                 N[i - 1]['orelse'] = self.block(b, fn, scope)
